@@ -282,10 +282,10 @@ def r16_5(ctx):
 
 
 def run(ctx):
-    r16_1(ctx)
-    r16_2(ctx)
-    r16_3(ctx)
-    r16_4(ctx)
-    r16_5(ctx)
+    ctx.do(r16_1)
+    ctx.do(r16_2)
+    ctx.do(r16_3)
+    ctx.do(r16_4)
+    ctx.do(r16_5)
     from . import c10
-    c10.r10_4_units(ctx, modules=("mbox", "fetch", "search"))
+    ctx.do(c10.r10_4_units, modules=("mbox", "fetch", "search"))
